@@ -76,9 +76,18 @@ func Check(props map[string]bool, prev, cur M) (string, string) {
 		if d := routedHasTask(prev, cur); d != "" {
 			return "C08", d
 		}
+		// a notification is finished after its first recorded hand-off attempt: it is never put back for another one
+		for _, t := range rows(cur, "tasks") {
+			if m, _ := t["mesg"].(map[string]any); m != nil && str(m["type"]) == "notify" && num(t["attempt"]) > 0 {
+				return "C08", fmt.Sprintf("notification task %q was handed off again (attempt %d, state %d)", str(t["id"]), num(t["attempt"]), num(t["state"]))
+			}
+		}
 	}
 	if props["C10"] {
 		if d := scheduleFiring(prev, cur); d != "" {
+			return "C10", d
+		}
+		if d := scheduledPromiseAdvances(prev, cur); d != "" {
 			return "C10", d
 		}
 	}
@@ -282,6 +291,38 @@ func scheduleFiring(prev, cur M) string {
 			if !reflect.DeepEqual(p["paramData"], s["promiseParamData"]) {
 				return fmt.Sprintf("scheduled promise %q does not carry the configured parameter", pid)
 			}
+		}
+	}
+	return ""
+}
+
+// C10 (atomic step): a promise carrying a schedule's marker that appears in a batch was created in the same step that
+// advanced that schedule: afterwards the schedule's last run time is at least the promise's occurrence
+func scheduledPromiseAdvances(prev, cur M) string {
+	old := byKey(rows(prev, "promises"), "id")
+	before := byKey(rows(prev, "schedules"), "id")
+	now := byKey(rows(cur, "schedules"), "id")
+	for _, p := range rows(cur, "promises") {
+		if _, existed := old[str(p["id"])]; existed {
+			continue
+		}
+		tags := pairs(p["tags"])
+		sid, ok := tags["resonate:schedule"]
+		if !ok || tags["resonate:invocation"] != "true" {
+			continue
+		}
+		s, ok1 := now[sid]
+		b, ok2 := before[sid]
+		if !ok1 || !ok2 || num(s["sortId"]) != num(b["sortId"]) {
+			continue // the schedule was deleted (or re-created) meanwhile
+		}
+		occ := num(p["timeout"]) - num(s["promiseTimeout"])
+		if occ != num(b["nextRunTime"]) && (b["lastRunTime"] == nil || occ <= num(b["lastRunTime"])) {
+			continue // not an occurrence of this schedule as it stood (a client created a look-alike)
+		}
+		if s["lastRunTime"] == nil || num(s["lastRunTime"]) < occ {
+			return fmt.Sprintf("promise %q of occurrence %d of schedule %q was created, but the schedule was not advanced in the same step (last run time %v, next run time %d)",
+				str(p["id"]), occ, sid, s["lastRunTime"], num(s["nextRunTime"]))
 		}
 	}
 	return ""
